@@ -51,3 +51,31 @@ pub fn features(s: &Sentence, cfg: (u8, u8, u8, u8), words: &[&str], max_len: u8
     }
     out
 }
+
+/// Reference of the tag trainer's features for the token [s, e) (C12): the n-grams 1..N characters longer than the token
+/// that contain it, lie inside the sentence and end 0..=window characters after its end, named with that distance.
+pub fn tag_features(sent: &Sentence, s: usize, e: usize, cfg: (u8, u8, u8, u8)) -> Vec<String> {
+    let (cw, cn, tw, tn) = (cfg.0 as isize, cfg.1 as isize, cfg.2 as isize, cfg.3 as isize);
+    let chars: Vec<char> = sent.as_raw_text().chars().collect();
+    let types = sent.char_types();
+    let n = chars.len() as isize;
+    let (s, e) = (s as isize, e as isize);
+    let mut out = vec![];
+    for (kind, w, nn) in [('C', cw, cn), ('T', tw, tn)] {
+        for extra in 1..=nn {
+            let len = (e - s) + extra;
+            for i in 0..n {
+                let rel = i + len - e;
+                if i <= s && i + len >= e && i + len <= n && rel >= 0 && rel <= w {
+                    if kind == 'C' {
+                        let g: String = chars[i as usize..(i + len) as usize].iter().collect();
+                        out.push(format!("C:{}:{}", g, rel));
+                    } else {
+                        out.push(format!("T:{:?}:{}", &types[i as usize..(i + len) as usize], rel));
+                    }
+                }
+            }
+        }
+    }
+    out
+}
